@@ -251,3 +251,33 @@ PROPS['C12'] = dict(
     level_text='Unbounded theorems over the ledger model: on every reachable state the total / delegated / per-committee tallies equal the sums over validator records and the unstaking / paused markers are exactly the validators in that status; from such a state no admissible history can fail - finish-unstaking, force-unstake and slashes always succeed at every future height (the old DeleteValidator is proved to wedge). The model is compared with the real FSM per transaction; on real chains every block must be producible and every scan consistent. Parameter changes and reward compounding are judged on the real chains only (partial).',
     level_note='Partial for governance parameter changes, auto-compounding rewards and non-sign windows (outside the model; exercised on real chains).',
 )
+
+PROPS['C01'] = dict(
+    props='props/C01.v',
+    models=['Bft', 'BftNet', 'BftCheck'],
+    harness='c01',
+    args=dict(quick=['-runs', '30', '-ticks', '60'], escalated=['-runs', '80', '-ticks', '70'], thorough=['-runs', '400', '-ticks', '90']),
+    fingerprint_groups=['Bft'],
+    rule='REAL bft.BFT replicas (harness/bftsim: mock bft.Controller only; real BLS signing, sortition, vote aggregation, certificate checks, '
+         'SafeNode, locks, pacemaker, NEW_COMMITTEE reset) under an adversarial network. (scripted) five attack schedules with one Byzantine '
+         'validator of four, each of which forked the chain before the fixes recorded in KNOWN_FINDINGS.txt (stale PRECOMMIT justification, '
+         'stale HighQC across a root-chain update, duplicated root-chain notification, planted block with stale block-hash cache) plus their '
+         'honest controls: a fork is reported directly. (random) recorded runs over committees of 3-7 validators with equal and skewed powers, '
+         '0 or 1 Byzantine validator (< 1/3 of the power) following one of 8 strategies (silent, withholding, commit-to-one, replaying old '
+         'justifications, stale HighQC proposals, forwarding locks with attached blocks, equivocation), message loss / delay / duplication, '
+         'skipped timer ticks, advancing, duplicated and late root-chain notifications; after EVERY action the acting replica\'s observable state '
+         '(root height, round, phase, lock, block, cached block hash, results, proposer, commit, votes sent) is compared with the model (M), and '
+         'the commits observed must agree (V); non-trivial: runs in which at least one replica commits',
+    modelled='hand-modelled: the replica side of package bft (message admission, proposal store, lock adoption, every phase of HandlePhase, SafeNode, '
+             'round interrupt, pacemaker, NEW_COMMITTEE reset, the commit gate). Generated from source: phase constants, the +2/3 threshold. Oracle '
+             '(universally quantified in the theorem, observed in the correspondence): election outcome (VRF sortition), vote aggregation at the '
+             'leader, block production and validation, the pacemaker round, the controller\'s root height. Not modelled: VDF, double-sign evidence '
+             'collection (C14), timers as real time (C15), gossip / sync of committed blocks (C02).',
+    assumptions=['ideal signatures: an aggregate that verifies names a correct replica only if that replica sent exactly that vote (unforgeability)',
+                 'the hash of a block / results identifies it (collision-free)', 'the controller\'s root height never decreases',
+                 'the validator set is the same at every root height of the height being decided (committee-preserving updates: the property\'s premise)',
+                 'total power below 2^63'],
+    trusted_base=['model/Bft.v and model/BftNet.v are hand-written mirrors of package bft tied by the action-by-action correspondence run on real replicas'],
+    level_text='Unbounded theorem: for every committee, every Byzantine set below one third of the power and EVERY execution of the replica model under an adversary that owns the network, the timers, the root-chain notifications, the election and every leader, correct replicas never commit different (block, results) pairs; commits are final and certified. The proof found two further forks in the model, one of which was replayed on the real replicas and both fixed; the model is compared with real bft.BFT replicas action by action on scripted attacks and random adversarial runs on every check.',
+    level_note='Trusted: Coq kernel, hand-written mirror tied by correspondence, ideal signatures and hashes, monotone root heights. Committee-changing root updates are outside the property. Five genuine defects were repaired (KNOWN_FINDINGS.txt); the theorem holds of the repaired code only (the old variants are proved to fork).',
+)
